@@ -17,6 +17,12 @@ open Swiftness Fri FoldSpec Swiftness.Merkle Swiftness.TableSpec
 theorem ex_nlayers : (Felt.ofNat 2 - 1 : Felt).val = 1 := by decide +kernel
 theorem ex_lastlen : Felt.ofNat 1 = Felt.pow 2 (Felt.ofNat 0).val := by decide +kernel
 
+/-- a one-layer configuration (no inner layers): last layer = the constant polynomial `5` -/
+def exCommitment : Commitment :=
+  { config := { logInputSize := 0, nLayers := 1, innerLayers := [], friStepSizes := [0],
+                logLastLayerDegreeBound := 0 },
+    innerLayers := [], evalPoints := [], lastLayerCoefficients := [5] }
+
 attribute [-instance] Fin.instOfNat
 
 /-- the honest first-layer queries: point `3·pt i` (the verifier divides by the generator 3) -/
@@ -30,6 +36,12 @@ theorem gatherFirstLayer_honest (yv pt : ℕ → Felt) (hpt : ∀ i, pt i ≠ 0)
       have := field_generator_inverse
       linear_combination pt i * this
     simp only [List.map_cons, gatherFirstLayer, hs, felt_zero_lit, if_neg (hpt i), ih, Felt.inv_eq]
+
+/-- the fold of `c0 + c1·X` with step 1 is the constant `2·(c0 + b·c1)` (any field) -/
+theorem ex_fold_generic {F : Type} [Field F] (c0 c1 b y z : F) :
+    evalL [2 * (c0 + b * c1)] z
+      = ((2 ^ 1 : ℕ) : F) * ∑ j ∈ Finset.range (2 ^ 1), b ^ j * evalL (split 1 [c0, c1] j) y := by
+  simp [evalL, split, evens, odds, Finset.sum_range_succ]
 
 /-- canonical size-8 domain, bit-reversed -/
 noncomputable def exPt (idx : ℕ) : Felt :=
@@ -104,8 +116,7 @@ theorem example_accepted (H : Hashes) (nf c0 c1 b : Felt) :
     apply (verifyLastLayer_ok_iff _ _ ?_).mpr
     · intro q hq
       simp only [nlres, List.map_cons, List.map_nil, List.mem_cons, List.not_mem_nil, or_false] at hq
-      rcases hq with rfl | rfl <;>
-        simp [evalL, split, evens, odds, Finset.sum_range_succ] <;> ring
+      rcases hq with rfl | rfl <;> exact ex_fold_generic c0 c1 b _ _
     · intro q hq
       simp only [nlres, List.map_cons, List.map_nil, List.mem_cons, List.not_mem_nil, or_false] at hq
       rcases hq with rfl | rfl <;> exact pow_ne_zero _ (inv_ne_zero (hpt0 _))
